@@ -327,7 +327,7 @@ theorem C07_store_read_loop_routes (s : Store) (l : LH) :
             ∧ ∀ r ∈ d1.loopRows l.cid l.loopNum, (addItem s l (some n) (some v)).1.db.cell l.cid n.key r = some v)
     ∧ (∀ pkt, (addPacket s l pkt).2 = .ok () →
         ∃ row, ∀ e ∈ pkt, (addPacket s l pkt).1.db.cell l.cid e.1 row = some e.2)
-    ∧ (∀ (it : Iter) pkt, keysDistinct pkt → (updatePacket s it pkt).2 = .ok () →
+    ∧ (∀ (it : Iter) pkt, keysDistinct_sv pkt → (updatePacket s it pkt).2 = .ok () →
         (∀ e ∈ pkt, (updatePacket s it pkt).1.db.cell it.cid e.1 it.prev.toNat = some e.2)
         ∧ ∀ k' row', (∀ e ∈ pkt, ¬(k' = e.1 ∧ row' = it.prev.toNat)) →
             (updatePacket s it pkt).1.db.cell it.cid k' row' = s.db.cell it.cid k' row') :=
@@ -385,7 +385,7 @@ theorem C07_stored_read_identical (s : Store) (hinv : InvS s) :
           ∧ ∀ r ∈ d1.loopRows l.cid l.loopNum, ReadsBack (addItemC s l n v).1.db l.cid n.key r v)
     ∧ (∀ (l : LH) (pkt : List (Str × V)), (∀ e ∈ pkt, C07_constructible e.2 ∧ C07_fits e.2) → (addPacketC s l pkt).2 = .ok () →
         ∃ row, ∀ e ∈ pkt, ReadsBack (addPacketC s l pkt).1.db l.cid e.1 row e.2)
-    ∧ (∀ (it : Iter) (pkt : List (Str × V)), (∀ e ∈ pkt, C07_constructible e.2 ∧ C07_fits e.2) → keysDistinct pkt →
+    ∧ (∀ (it : Iter) (pkt : List (Str × V)), (∀ e ∈ pkt, C07_constructible e.2 ∧ C07_fits e.2) → keysDistinct_sv pkt →
         (updatePacketC s it pkt).2 = .ok () →
         ∀ e ∈ pkt, ReadsBack (updatePacketC s it pkt).1.db it.cid e.1 it.prev.toNat e.2) := by
   refine ⟨?_, ?_, ?_, ?_, ?_⟩
